@@ -4,11 +4,11 @@ import SecsModel.Model.Hsms
 /-!
 Driver domain `hsmsfsm`.
 
-    hsmsfsm run <a|p> <ctr> <d1><d2> <op,op,…|->      one history; d1 = selectRspUnchecked, d2 = separateIgnored (0|1)
+    hsmsfsm run <a|p> <ctr> <d1><d2> <op,op,…|->      one history; d1 = selectRspUnchecked, d2 = separateIgnored (0|1; 00 = the code as it is)
        op := con | pcl | dib | die | rx.<stype>.<sys>.<status> | dat.<stream>.<function>.<w>.<sys>.<decodable> | datq.<…same…> (dispatch of a block queued earlier)
-           | api.sel | api.des | api.lnk | t6.<sys>
+           | api.sel | api.des | api.lnk | t6.<sys> | lt (a pending linktest timer fires)
        stype := selreq | selrsp | desreq | desrsp | lnkreq | lnkrsp | rejreq | sepreq
-    -> ok <conn> dis=<0|1> ctr=<n> open=<sys>/<kind>;… | <conn> tx=<stype>/<sys>/<b2>/<b3>;… ev=<name>;… dl=<app|wait>/<sys>;… err=<ErrKind>;… [blk=<frames put into the send queue without a connection>] | …
+    -> ok <conn> dis=<0|1> ctr=<n> open=<sys>/<kind>;… lt=<stored timer pending>/<orphan timers> | <conn> tx=<stype>/<sys>/<b2>/<b3>;… ev=<name>;… dl=<app|wait>/<sys>;… err=<ErrKind>;… [blk=<frames put into the send queue without a connection>] | …
     hsmsfsm race <gen|old> <schedule of a/d letters|-|eager|lazy>
     -> ok conn=<conn> started=<0|1> rsp=<0|1> raised=<0|1> final=<0|1>
 -/
@@ -40,6 +40,7 @@ def parseOp (s : String) : Option In :=
   | ["api", "des"] => some .apiDeselect
   | ["api", "lnk"] => some .apiLinktest
   | ["t6", sys] => do let sys ← parseInt sys; pure (.timeoutT6 sys)
+  | ["lt"] => some .linktestTimer
   | _ => none
 
 def parseHistory (s : String) : Option (List In) :=
@@ -49,7 +50,7 @@ def showConn : Conn → String
   | .notConnected => "NC" | .notSelected => "NS" | .selected => "SEL"
 
 def showReq : Req → String
-  | .select => "sel" | .deselect => "des" | .linktest => "lnk"
+  | .select => "sel" | .deselect => "des" | .linktest => "lnk" | .ltimer => "ltm"
 
 def joinOr (xs : List String) : String := if xs.isEmpty then "-" else ";".intercalate xs
 
@@ -69,7 +70,7 @@ def trace (d : Defects) : St → List In → List String
     (showConn s1.conn ++ " " ++ showOuts o1) :: trace d s1 is
 
 def showSt (s : St) : String :=
-  s!"{showConn s.conn} dis={showBool s.disconnecting} ctr={s.ctr} open={joinOr (s.opn.map (fun e => s!"{e.1}/{showReq e.2}"))}"
+  s!"{showConn s.conn} dis={showBool s.disconnecting} ctr={s.ctr} open={joinOr (s.opn.map (fun e => s!"{e.1}/{showReq e.2}"))} lt={showBool s.ltStored}/{s.ltOrphans}"
 
 def parseSched (s : String) : Option (List Bool) :=
   if s == "-" then some [] else s.toList.mapM (fun c => if c == 'a' then some true else if c == 'd' then some false else none)
